@@ -406,7 +406,9 @@ pub fn run(report: &mut Report) {
     for c in all.iter().step_by(total / 5 + 1) {
         report.sample(json!({"case": c.desc, "delivered_as": format!("{:?}", c.via)}));
     }
-    report.set("evaluations", total as u64);
+    let deep = deep_sweep(report);
+    report.set("deep_nesting_cases_in_a_child_process", deep);
+    report.set("evaluations", total as u64 + deep);
     report.set("distinct_nontrivial", distinct.len() as u64);
     report.set("cases_by_mutation_class", json!(per_class));
     report.set("watchdog_ms", limit_ms as u64);
@@ -414,4 +416,105 @@ pub fn run(report: &mut Report) {
     report.set("cases_not_run_because_all_workers_hung", abandoned as u64);
     report.set("rule", "for each of 21 seed messages: truncation at every byte offset (with and without a trailing delimiter), substitution of {00,80,FF,<,>,&,\",]} at every offset (strided for the large seeds in the quick tier), deletion / duplication of every element and attribute, swap of adjacent siblings, every numeric field replaced by 10 hostile values, splices of seed prefixes and suffixes at element boundaries, plus absurd shapes; delivered as hello, as the reply to one of two outstanding requests, or as a get-config reply to the agent's readers; distinct = distinct byte strings");
     report.assume("allocation failure / stack exhaustion would abort the harness (machinery failure, not a verdict); messages above a few MB are not generated");
+}
+
+// ---------------- deep nesting at every element position (child process) ----------------
+const DEEP_LEVELS: usize = 100_000;
+
+/// A foreign-namespace element nested `DEEP_LEVELS` deep, inserted as first child of (a spread of) the elements of
+/// every seed message. Exhausting the stack aborts the whole process, so the sweep runs in a child process whose
+/// worker threads have an ordinary 2 MiB stack.
+fn deep_cases() -> Vec<Case> {
+    let mut deep = String::with_capacity(DEEP_LEVELS * 12);
+    deep.push_str("<v:x xmlns:v=\"urn:example:vendor\">");
+    for _ in 1..DEEP_LEVELS {
+        deep.push_str("<v:x>");
+    }
+    deep.push('t');
+    for _ in 0..DEEP_LEVELS {
+        deep.push_str("</v:x>");
+    }
+    let mut out = Vec::new();
+    for seed in &seeds() {
+        let root = parse_xml(&seed.xml).expect("seed parses");
+        let text = format!("{}{MARKER}", serialize(&root, &[], seed.expanded));
+        let b = text.as_bytes();
+        // ends of start tags that open an element
+        let mut points = Vec::new();
+        let mut i = 0;
+        while i < b.len() {
+            if b[i] == b'<' && i + 1 < b.len() && b[i + 1] != b'/' && b[i + 1] != b'!' && b[i + 1] != b'?' {
+                if let Some(end) = text[i..].find('>').map(|e| i + e) {
+                    if b[end - 1] != b'/' {
+                        points.push(end + 1);
+                    }
+                    i = end;
+                }
+            }
+            i += 1;
+        }
+        let step = points.len() / 12 + 1;
+        for p in points.iter().step_by(step) {
+            let mut t = String::with_capacity(text.len() + deep.len());
+            t.push_str(&text[..*p]);
+            t.push_str(&deep);
+            t.push_str(&text[*p..]);
+            let tag_start = text[..*p].rfind('<').unwrap_or(0);
+            out.push(Case { via: seed.via, bytes: t.into_bytes(), desc: format!("{}: a foreign element nested {DEEP_LEVELS} deep as first child of {}", seed.name, &text[tag_start..*p].chars().take(40).collect::<String>()), class: "deep-nesting", late_reply: false, open_wire: false });
+        }
+    }
+    out
+}
+
+/// `vcheck c14-deep`: runs the deep-nesting cases, one line before and one after each.
+pub fn deep_child() {
+    use std::io::Write;
+    std::panic::set_hook(Box::new(|_| {}));
+    for (i, case) in deep_cases().into_iter().enumerate() {
+        println!("CASE {i} {}", case.desc);
+        _ = std::io::stdout().flush();
+        let handle = thread::Builder::new().stack_size(2 << 20).spawn(move || match std::panic::catch_unwind(std::panic::AssertUnwindSafe(|| run_case(&case))) {
+            Ok(Verdict::Fine) => "fine".to_string(),
+            Ok(Verdict::Panic(m)) => format!("panic {m}"),
+            Ok(Verdict::Stalled(w)) => format!("stalled {w}"),
+            Ok(Verdict::BystanderHurt(w)) => format!("bystander {w}"),
+            Err(p) => format!("panic {}", p.downcast_ref::<&str>().map(|s| (*s).to_string()).or_else(|| p.downcast_ref::<String>().cloned()).unwrap_or_else(|| "panic".into())),
+        });
+        let verdict = handle.ok().and_then(|h| h.join().ok()).unwrap_or_else(|| "panic (worker died)".into());
+        println!("VERDICT {i} {verdict}");
+        _ = std::io::stdout().flush();
+    }
+    println!("DONE");
+}
+
+fn deep_sweep(report: &mut Report) -> u64 {
+    let exe = std::env::current_exe().expect("exe");
+    let out = std::process::Command::new(exe).arg("c14-deep").stderr(std::process::Stdio::null()).output().expect("spawn c14-deep");
+    let text = String::from_utf8_lossy(&out.stdout);
+    let mut last_case = String::new();
+    let mut n = 0u64;
+    let mut done = false;
+    for line in text.lines() {
+        if let Some(rest) = line.strip_prefix("CASE ") {
+            last_case = rest.splitn(2, ' ').nth(1).unwrap_or("").to_string();
+            n += 1;
+        } else if let Some(rest) = line.strip_prefix("VERDICT ") {
+            let v = rest.splitn(2, ' ').nth(1).unwrap_or("");
+            let doc = json!({"case": last_case, "levels": DEEP_LEVELS});
+            if let Some(m) = v.strip_prefix("panic") {
+                report.violation("C14:panic:deep-nesting", &format!("{last_case}: the library panicked:{m}"), doc);
+            } else if let Some(m) = v.strip_prefix("stalled") {
+                report.violation("C14:hang:deep-nesting", &format!("{last_case}:{m}"), doc);
+            } else if let Some(m) = v.strip_prefix("bystander") {
+                report.violation("C14:other-request-disturbed:deep-nesting", &format!("{last_case}:{m}"), doc);
+            }
+        } else if line == "DONE" {
+            done = true;
+        }
+    }
+    if !done {
+        use std::os::unix::process::ExitStatusExt;
+        report.violation("C14:abort:deep-nesting", &format!("{last_case}: the process died (exit {:?}, signal {:?}) - stack exhaustion takes every other request of the process down with it", out.status.code(), out.status.signal()), json!({"case": last_case, "levels": DEEP_LEVELS}));
+    }
+    n
 }
